@@ -8,6 +8,7 @@ concatenate to entity bytes `a..b`.
 -/
 import HttpServeModel.Lemmas.ServeLemmas
 import HttpServeModel.Lemmas.Layout
+import HttpServeModel.Lemmas.EndToEnd
 
 namespace HS
 
@@ -43,5 +44,32 @@ theorem C02_no_fetch_otherwise (q : Req) (e : Ent) (now : Nat) (r : Resp)
     (h : serve q e now = .ok r) (hs : r.status ≠ 200) (hcr : r.header .contentRange = none) :
     ∀ a b, EntCall.getRange a b ∉ r.calls :=
   no_fetch_otherwise q e now r h hs hcr
+
+/-- End to end, single range: the response names `bytes a-b/L` (a ≤ b < L = entity length),
+announces `Content-Length: b-a+1`, and for ANY honest stream for that range — any chunking — the
+body built from the response delivers exactly entity bytes a..=b, exactly as many as announced,
+and ends cleanly. -/
+theorem C02_single_range_end_to_end (c : Content) (q : Req) (e : Ent) (now : Nat) (r : Resp)
+    (hlen : e.len < U64) (h : serve q e now = .ok r) (hget : q.method = .get) (hs : r.status = 206)
+    (cr : HVal) (hcr : r.header .contentRange = some cr) :
+    ∃ a b', a < b' ∧ b' ≤ e.len ∧
+      cr = .bytes (kBytesSp ++ dec a ++ [45] ++ dec (b' - 1) ++ [47] ++ dec e.len) ∧
+      r.header .contentLength = some (.bytes (dec (b' - a))) ∧
+      ∀ script, HonestScript c a b' script → ∀ n, script.length + 1 ≤ n →
+        ∃ body, BodyS.ofPlan r.plan [script] = .ok body ∧
+          concatData (outs (body.run n)) = c.slice a b' ∧ PollOut.end_ ∈ outs (body.run n) ∧
+          (∀ o ∈ outs (body.run n), o.isErr = false) ∧ delivered (body.run n) = b' - a :=
+  single_range_end_to_end c q e now r hlen h hget hs cr hcr
+
+/-- End to end, complete 200: Content-Length = L and the body is the entity's complete byte
+sequence for any honest stream. -/
+theorem C02_full_200_end_to_end (c : Content) (q : Req) (e : Ent) (now : Nat) (r : Resp)
+    (h : serve q e now = .ok r) (hget : q.method = .get) (hs : r.status = 200) :
+    r.header .contentLength = some (.bytes (dec e.len)) ∧
+    ∀ script, HonestScript c 0 e.len script → ∀ n, script.length + 1 ≤ n →
+      ∃ body, BodyS.ofPlan r.plan [script] = .ok body ∧
+        concatData (outs (body.run n)) = c.slice 0 e.len ∧ PollOut.end_ ∈ outs (body.run n) ∧
+        (∀ o ∈ outs (body.run n), o.isErr = false) :=
+  full_200_end_to_end c q e now r h hget hs
 
 end HS
